@@ -437,6 +437,10 @@ class UTPM(Ring, RawAlgorithmsMixIn):
             return UTPM.exp(UTPM.log(self)*r)
         else:
             x_data = self.data
+            if isinstance(r, numpy.ndarray) and r.ndim > 0:
+                # an exponent array broadcasts against the shape of x, not against the (D,P) axes
+                x_data, r_data = UTPM._broadcast_arrays(x_data, r.reshape((1,1) + r.shape))
+                r = r_data[0,0]
             # a complex exponent gives a complex result also for real x
             y_data = numpy.zeros_like(x_data, dtype=numpy.result_type(x_data, r))
             self._pow_real(x_data, r, y_data)
